@@ -451,7 +451,14 @@ pub fn register_upvalue<T>(
     if is_local {
         // `index` is a local slot of the current (enclosing) function: it is relative to its frame
         let offset = stack_offset(vm);
-        let location = &vm.runtime_data.value_stack.as_slice()[offset + index as usize];
+        // the slot may be gone: a callee that was given too few arguments truncates its caller's
+        // locals when it returns
+        let location = vm
+            .runtime_data
+            .value_stack
+            .as_slice()
+            .get(offset + index as usize)
+            .ok_or(ExecutionErrorPayload::InvalidUpvalue)?;
         let location = (location as *const Value).cast_mut();
         unsafe {
             // look for an existing upvalue to the same location
